@@ -1,7 +1,2390 @@
-//! C18: not implemented yet.
+//! C18: subqueries ([NOT] IN, [NOT] EXISTS, scalar, derived tables; correlated or not, nesting <= 3) and set
+//! operations (UNION/INTERSECT/EXCEPT [ALL], chains, trailing ORDER BY/LIMIT) follow SQL semantics.
+//! Differential check against the sqlm reference evaluator; every mismatch is shrunk (query structure, table
+//! rows, NULL cells) while the same sub-assertion keeps failing; the signature is built from the minimal case.
+use crate::report::Ctx;
+use crate::rng::{fnv, Rng};
+use crate::sqlm::cmp::compare;
+use crate::sqlm::db::{is_panic, panic_tag, Db, Scratch};
+use crate::sqlm::expr::{bin, AggFn, BinOp, MErr, E};
+use crate::sqlm::gen::{ColSpec, ScopeCol, TableSpec, Ty};
+use crate::sqlm::query::{run_model, FromItem, Item, Join, JoinKind, MTable, OrderKey, Query, Select, SetKind};
+use crate::sqlm::val::{row_key, rows_json, Row, V};
 use crate::Args;
+use serde_json::{json, Value as J};
+use std::collections::{BTreeMap, BTreeSet};
 
-pub fn run(_a: &Args) -> i32 {
-    println!("INCONCLUSIVE property=C18 reason=check not implemented yet");
-    2
+// ---------------------------------------------------------------------------------------------
+// tables
+// ---------------------------------------------------------------------------------------------
+
+const TEXTS: &[&str] = &["a", "b", "ab", "c", "ba"];
+
+fn make_spec(rng: &mut Rng, name: &str) -> TableSpec {
+    let sfx = name[name.len() - 1..].to_string();
+    let mut np = |rng: &mut Rng| *rng.pick(&[0u64, 200, 200, 400]);
+    let mut cols = vec![ColSpec { name: format!("i1{}", sfx), ty: Ty::Int, null_pm: np(rng) }, ColSpec { name: format!("t2{}", sfx), ty: Ty::Text, null_pm: np(rng) }];
+    match rng.below(3) {
+        0 => cols.push(ColSpec { name: format!("i3{}", sfx), ty: Ty::Int, null_pm: np(rng) }),
+        1 => cols.push(ColSpec { name: format!("f3{}", sfx), ty: Ty::Float, null_pm: np(rng) }),
+        _ => {}
+    }
+    TableSpec { name: name.to_string(), cols, with_pk: true }
+}
+
+fn gen_val(rng: &mut Rng, ty: Ty, null_pm: u64) -> V {
+    if rng.below(1000) < null_pm {
+        return V::Null;
+    }
+    match ty {
+        Ty::Int => {
+            if rng.chance(4, 5) {
+                V::Int(rng.range(0, 4))
+            } else {
+                V::Int(rng.range(-3, 9))
+            }
+        }
+        Ty::Float => V::Float(rng.range(0, 8) as f64 / 4.0),
+        Ty::Text => V::Text(rng.pick(TEXTS).to_string()),
+        Ty::Bool => V::Bool(rng.chance(1, 2)),
+    }
+}
+
+fn gen_rows(rng: &mut Rng, spec: &TableSpec, n: usize) -> Vec<Row> {
+    (0..n)
+        .map(|i| {
+            let mut r = vec![V::Int(i as i64 + 1)];
+            for c in &spec.cols {
+                r.push(gen_val(rng, c.ty, c.null_pm));
+            }
+            r
+        })
+        .collect()
+}
+
+#[derive(Clone)]
+struct Case {
+    specs: Vec<TableSpec>,
+    rows: Vec<Vec<Row>>,
+}
+
+impl Case {
+    fn tables(&self) -> BTreeMap<String, MTable> {
+        let mut m = BTreeMap::new();
+        for (s, r) in self.specs.iter().zip(self.rows.iter()) {
+            m.insert(s.name.to_lowercase(), s.to_mtable(r.clone()));
+        }
+        m
+    }
+    fn setup_sql(&self, only: Option<&BTreeSet<String>>) -> Vec<String> {
+        let mut v = vec![];
+        for (s, r) in self.specs.iter().zip(self.rows.iter()) {
+            if let Some(o) = only {
+                if !o.contains(&s.name) {
+                    continue;
+                }
+            }
+            v.push(s.create_sql());
+            v.extend(s.insert_sql(r));
+        }
+        v
+    }
+    fn build(&self, scratch: &Scratch, name: &str, only: Option<&BTreeSet<String>>) -> Result<Db, String> {
+        let mut db = Db::create(&scratch.dir(name))?;
+        let _ = db.exec("PRAGMA synchronous = OFF");
+        for s in self.setup_sql(only) {
+            db.exec(&s).map_err(|e| format!("{}: {}", s, e))?;
+        }
+        Ok(db)
+    }
+    fn data_hash(&self) -> u64 {
+        let mut s = String::new();
+        for r in self.rows.iter().flatten() {
+            s.push_str(&row_key(r, false));
+            s.push('\n');
+        }
+        fnv(s.as_bytes())
+    }
+}
+
+// ---------------------------------------------------------------------------------------------
+// query generator
+// ---------------------------------------------------------------------------------------------
+
+/// naming style of one generated statement
+#[derive(Clone, Copy, PartialEq, Eq, Debug)]
+enum Style {
+    /// no aliases, no qualifiers (every base table occurs at most once in the statement)
+    Bare,
+    /// no aliases, columns qualified by the table name (every base table at most once)
+    TableQual,
+    /// every base table aliased, every column qualified
+    Aliased,
+    /// aliases; own columns unqualified, outer columns qualified (the README style)
+    Mixed,
+}
+
+/// one query level: how its columns are written at the level itself / from inside a subquery
+#[derive(Clone, Debug)]
+struct Lvl {
+    local: Vec<ScopeCol>,
+    outer: Vec<ScopeCol>,
+}
+
+fn ce(c: &ScopeCol) -> E {
+    E::Col { tbl: c.tbl.clone(), name: c.name.clone() }
+}
+fn of_ty(cols: &[ScopeCol], ty: Ty) -> Vec<ScopeCol> {
+    cols.iter().filter(|c| c.ty == ty).cloned().collect()
+}
+fn and_all(v: Vec<E>) -> Option<E> {
+    let mut it = v.into_iter();
+    let first = it.next()?;
+    Some(it.fold(first, |a, b| bin(BinOp::And, a, b)))
+}
+fn ex(e: E) -> Item {
+    Item::Expr { e, alias: None }
+}
+fn flip(op: BinOp) -> BinOp {
+    match op {
+        BinOp::Lt => BinOp::Gt,
+        BinOp::Gt => BinOp::Lt,
+        BinOp::Le => BinOp::Ge,
+        BinOp::Ge => BinOp::Le,
+        o => o,
+    }
+}
+const CMPS: &[BinOp] = &[BinOp::Eq, BinOp::Ne, BinOp::Lt, BinOp::Le, BinOp::Gt, BinOp::Ge];
+
+struct Gen<'a> {
+    rng: &'a mut Rng,
+    specs: &'a [TableSpec],
+    nrows: Vec<usize>,
+    style: Style,
+    n_alias: usize,
+    n_col: usize,
+    used: Vec<usize>,
+}
+
+impl<'a> Gen<'a> {
+    fn from_table(&mut self) -> Option<(FromItem, Lvl, usize)> {
+        let once = matches!(self.style, Style::Bare | Style::TableQual);
+        let cands: Vec<usize> = (0..self.specs.len()).filter(|i| !(once && self.used.contains(i))).collect();
+        if cands.is_empty() {
+            return None;
+        }
+        let ti = *self.rng.pick(&cands);
+        self.used.push(ti);
+        let specs: &'a [TableSpec] = self.specs;
+        let spec = &specs[ti];
+        let alias = match self.style {
+            Style::Aliased | Style::Mixed => {
+                self.n_alias += 1;
+                Some(format!("q{}", self.n_alias))
+            }
+            _ => None,
+        };
+        let qual = alias.clone().unwrap_or_else(|| spec.name.clone());
+        let mk = |q: bool| -> Vec<ScopeCol> { spec.col_names().into_iter().zip(spec.col_types()).map(|(name, ty)| ScopeCol { tbl: if q { Some(qual.clone()) } else { None }, name, ty }).collect() };
+        let (lq, oq) = match self.style {
+            Style::Bare => (false, false),
+            Style::TableQual | Style::Aliased => (true, true),
+            Style::Mixed => (false, true),
+        };
+        Some((FromItem::Table { name: spec.name.clone(), alias }, Lvl { local: mk(lq), outer: mk(oq) }, ti))
+    }
+
+    fn lit_for(&mut self, ty: Ty) -> E {
+        E::Lit(match ty {
+            Ty::Int => V::Int(self.rng.range(0, 4)),
+            Ty::Float => V::Float(self.rng.range(0, 8) as f64 / 4.0),
+            Ty::Text => V::Text(self.rng.pick(TEXTS).to_string()),
+            Ty::Bool => V::Bool(self.rng.chance(1, 2)),
+        })
+    }
+
+    /// simple predicate over one column
+    fn atom(&mut self, cols: &[ScopeCol]) -> E {
+        let c = self.rng.pick(cols).clone();
+        let r = self.rng.below(100);
+        if r < 12 {
+            return E::IsNull(Box::new(ce(&c)), self.rng.chance(1, 2));
+        }
+        let cmp = *self.rng.pick(CMPS);
+        match c.ty {
+            Ty::Int if c.name == "id" => bin(cmp, ce(&c), E::Lit(V::Int(self.rng.range(1, 8)))),
+            Ty::Int | Ty::Text if r < 30 => {
+                let n = self.rng.usize(1, 3);
+                let l: Vec<E> = (0..n).map(|_| self.lit_for(c.ty)).collect();
+                E::InList(Box::new(ce(&c)), l, self.rng.chance(1, 3))
+            }
+            Ty::Int if r < 42 => {
+                let lo = self.rng.range(0, 3);
+                let hi = lo + self.rng.range(0, 3);
+                E::Between(Box::new(ce(&c)), Box::new(E::Lit(V::Int(lo))), Box::new(E::Lit(V::Int(hi))), self.rng.chance(1, 4))
+            }
+            Ty::Bool => bin(BinOp::Eq, ce(&c), E::Lit(V::Bool(self.rng.chance(1, 2)))),
+            ty => {
+                let l = self.lit_for(ty);
+                bin(cmp, ce(&c), l)
+            }
+        }
+    }
+
+    fn local_pred(&mut self, cols: &[ScopeCol]) -> E {
+        let r = self.rng.below(100);
+        if r < 60 {
+            self.atom(cols)
+        } else if r < 78 {
+            let (a, b) = (self.atom(cols), self.atom(cols));
+            bin(BinOp::And, a, b)
+        } else if r < 92 {
+            let (a, b) = (self.atom(cols), self.atom(cols));
+            bin(BinOp::Or, a, b)
+        } else {
+            E::Not(Box::new(self.atom(cols)))
+        }
+    }
+
+    /// correlation predicate between an inner level and one of the enclosing levels
+    fn corr(&mut self, inner: &[ScopeCol], stack: &[Lvl]) -> Option<E> {
+        if stack.is_empty() {
+            return None;
+        }
+        let li = if stack.len() > 1 && self.rng.chance(1, 4) { self.rng.usize(0, stack.len() - 2) } else { stack.len() - 1 };
+        let ty = if self.rng.chance(2, 3) { Ty::Int } else { Ty::Text };
+        let ic = of_ty(inner, ty);
+        let oc = of_ty(&stack[li].outer, ty);
+        if ic.is_empty() || oc.is_empty() {
+            return None;
+        }
+        let a = ce(self.rng.pick(&ic));
+        let b = ce(self.rng.pick(&oc));
+        let op = if self.rng.chance(3, 4) { BinOp::Eq } else { *self.rng.pick(&[BinOp::Lt, BinOp::Gt, BinOp::Ne, BinOp::Le]) };
+        Some(if self.rng.chance(1, 2) { bin(op, a, b) } else { bin(flip(op), b, a) })
+    }
+
+    /// WHERE clause of a subquery: optional correlation, optional local filter, optional nested subquery predicate
+    fn inner_where(&mut self, stack: &mut Vec<Lvl>, lvl: &Lvl, depth_left: u32, p_corr: u64, p_local: u64) -> Option<E> {
+        let mut conj = vec![];
+        if self.rng.below(100) < p_corr {
+            if let Some(c) = self.corr(&lvl.local, &stack[..]) {
+                conj.push(c);
+            }
+        }
+        if self.rng.below(100) < p_local {
+            conj.push(self.local_pred(&lvl.local));
+        }
+        if depth_left > 0 && self.rng.chance(2, 5) {
+            stack.push(lvl.clone());
+            if let Some(p) = self.subq_pred(stack, depth_left - 1) {
+                conj.push(p);
+            }
+            stack.pop();
+        }
+        if conj.len() > 1 && self.rng.chance(1, 2) {
+            conj.reverse();
+        }
+        and_all(conj)
+    }
+
+    fn pick_setop(&mut self) -> (SetKind, bool) {
+        *self.rng.pick(&[
+            (SetKind::Union, false),
+            (SetKind::Union, false),
+            (SetKind::Union, true),
+            (SetKind::Union, true),
+            (SetKind::Intersect, false),
+            (SetKind::Intersect, false),
+            (SetKind::Except, false),
+            (SetKind::Except, false),
+            (SetKind::Intersect, true),
+            (SetKind::Except, true),
+        ])
+    }
+
+    /// subquery predicate for the level on top of `stack`
+    fn subq_pred(&mut self, stack: &mut Vec<Lvl>, depth_left: u32) -> Option<E> {
+        let r = self.rng.below(100);
+        if r < 23 {
+            self.in_sub(stack, depth_left, false)
+        } else if r < 48 {
+            self.in_sub(stack, depth_left, true)
+        } else if r < 64 {
+            self.exists(stack, depth_left, false)
+        } else if r < 80 {
+            self.exists(stack, depth_left, true)
+        } else {
+            self.scalar_cmp(stack, depth_left)
+        }
+    }
+
+    fn in_sub(&mut self, stack: &mut Vec<Lvl>, depth_left: u32, neg: bool) -> Option<E> {
+        let cur = stack.last().unwrap().clone();
+        let ty = if self.rng.chance(3, 5) { Ty::Int } else { Ty::Text };
+        let r = self.rng.below(100);
+        let lc = of_ty(&cur.local, ty);
+        let left = if r < 86 && !lc.is_empty() {
+            ce(self.rng.pick(&lc))
+        } else if r < 95 {
+            self.lit_for(ty)
+        } else {
+            E::Lit(V::Null)
+        };
+        let q = self.one_col_query(stack, depth_left, ty)?;
+        Some(E::InSub(Box::new(left), Box::new(q), neg))
+    }
+
+    /// a query producing one column of type `ty`
+    fn one_col_query(&mut self, stack: &mut Vec<Lvl>, depth_left: u32, ty: Ty) -> Option<Query> {
+        let r = self.rng.below(100);
+        if r < 7 {
+            let a = self.one_col_select(stack, depth_left, ty, false)?;
+            let b = self.one_col_select(stack, depth_left, ty, false)?;
+            let (kind, all) = self.pick_setop();
+            return Some(Query::SetOp { kind, all, left: Box::new(Query::Select(a)), right: Box::new(Query::Select(b)), order_by: vec![], limit: None, offset: None });
+        }
+        Some(Query::Select(self.one_col_select(stack, depth_left, ty, r < 16)?))
+    }
+
+    fn one_col_select(&mut self, stack: &mut Vec<Lvl>, depth_left: u32, ty: Ty, agg: bool) -> Option<Select> {
+        let (from, lvl) = if depth_left > 0 && self.rng.chance(1, 8) {
+            self.derived_item(depth_left - 1)?
+        } else {
+            let (f, l, _) = self.from_table()?;
+            (f, l)
+        };
+        let cands = of_ty(&lvl.local, ty);
+        if cands.is_empty() {
+            return None;
+        }
+        let c = self.rng.pick(&cands).clone();
+        let where_ = self.inner_where(stack, &lvl, depth_left, 45, 50);
+        if agg {
+            let g = self.rng.pick(&lvl.local).clone();
+            let f = *self.rng.pick(&[AggFn::Max, AggFn::Min]);
+            return Some(Select { items: vec![ex(E::Agg(f, Some(Box::new(ce(&c)))))], from: vec![from], where_, group_by: vec![ce(&g)], ..Default::default() });
+        }
+        Some(Select { distinct: self.rng.chance(1, 10), items: vec![ex(ce(&c))], from: vec![from], where_, ..Default::default() })
+    }
+
+    fn exists(&mut self, stack: &mut Vec<Lvl>, depth_left: u32, neg: bool) -> Option<E> {
+        let (from, lvl, _) = self.from_table()?;
+        let where_ = self.inner_where(stack, &lvl, depth_left, 65, 45);
+        let r = self.rng.below(100);
+        let items = if r < 50 {
+            vec![ex(E::Lit(V::Int(1)))]
+        } else if r < 75 {
+            vec![Item::Star]
+        } else {
+            vec![ex(ce(self.rng.pick(&lvl.local)))]
+        };
+        Some(E::Exists(Box::new(Query::Select(Select { items, from: vec![from], where_, ..Default::default() })), neg))
+    }
+
+    /// scalar subquery and the type class of its value
+    fn scalar(&mut self, stack: &mut Vec<Lvl>, depth_left: u32, want: Option<Ty>) -> Option<(E, Ty)> {
+        let (from, lvl, ti) = self.from_table()?;
+        let r = self.rng.below(100);
+        // MIN/MAX over text, COUNT(col), SUM, AVG are C16's subject: kept rare here
+        if r < 45 && !(want == Some(Ty::Text) && r >= 8) {
+            // aggregate without GROUP BY: exactly one row
+            let mut opts: Vec<(AggFn, Option<ScopeCol>, Ty)> = vec![];
+            for c in &lvl.local {
+                let not_id = c.name != "id";
+                match c.ty {
+                    Ty::Int => {
+                        if want.is_none() || want == Some(Ty::Int) {
+                            opts.push((AggFn::Count, Some(c.clone()), Ty::Int));
+                            for _ in 0..3 {
+                                opts.push((AggFn::Max, Some(c.clone()), Ty::Int));
+                                opts.push((AggFn::Min, Some(c.clone()), Ty::Int));
+                            }
+                            if not_id {
+                                opts.push((AggFn::Sum, Some(c.clone()), Ty::Int));
+                            }
+                        }
+                        if want == Some(Ty::Float) && not_id {
+                            opts.push((AggFn::Avg, Some(c.clone()), Ty::Float));
+                        }
+                    }
+                    Ty::Float => {
+                        if want.is_none() || want == Some(Ty::Float) {
+                            opts.push((AggFn::Max, Some(c.clone()), Ty::Float));
+                            opts.push((AggFn::Min, Some(c.clone()), Ty::Float));
+                            opts.push((AggFn::Avg, Some(c.clone()), Ty::Float));
+                        }
+                    }
+                    Ty::Text => {
+                        if want.is_none() || want == Some(Ty::Text) {
+                            opts.push((AggFn::Max, Some(c.clone()), Ty::Text));
+                            opts.push((AggFn::Min, Some(c.clone()), Ty::Text));
+                        }
+                        if want.is_none() || want == Some(Ty::Int) {
+                            opts.push((AggFn::Count, Some(c.clone()), Ty::Int));
+                        }
+                    }
+                    Ty::Bool => {}
+                }
+            }
+            if want.is_none() || want == Some(Ty::Int) {
+                for _ in 0..10 {
+                    opts.push((AggFn::CountStar, None, Ty::Int));
+                }
+            }
+            if opts.is_empty() {
+                return None;
+            }
+            let (f, c, ty) = self.rng.pick(&opts).clone();
+            let where_ = self.inner_where(stack, &lvl, depth_left, 60, 40);
+            let sel = Select { items: vec![ex(E::Agg(f, c.map(|c| Box::new(ce(&c)))))], from: vec![from], where_, ..Default::default() };
+            return Some((E::Scalar(Box::new(Query::Select(sel))), ty));
+        }
+        let ty = want.unwrap_or(if self.rng.chance(1, 2) { Ty::Int } else { Ty::Text });
+        let cands = of_ty(&lvl.local, ty);
+        if cands.is_empty() {
+            return None;
+        }
+        let c = self.rng.pick(&cands).clone();
+        let where_ = if r < 80 {
+            // lookup by primary key: zero or one row
+            let id = lvl.local.iter().find(|c| c.name == "id")?.clone();
+            let outer_ints: Vec<ScopeCol> = stack.iter().flat_map(|l| of_ty(&l.outer, Ty::Int)).collect();
+            let k = self.rng.below(100);
+            let key = if k < 50 && !outer_ints.is_empty() {
+                ce(self.rng.pick(&outer_ints))
+            } else if k < 95 {
+                E::Lit(V::Int(self.rng.range(0, self.nrows[ti] as i64 + 2)))
+            } else {
+                E::Lit(V::Null)
+            };
+            Some(bin(BinOp::Eq, ce(&id), key))
+        } else {
+            // arbitrary filter: zero, one or several rows (several: an error is expected)
+            self.inner_where(stack, &lvl, depth_left, 50, 85)
+        };
+        let sel = Select { items: vec![ex(ce(&c))], from: vec![from], where_, ..Default::default() };
+        Some((E::Scalar(Box::new(Query::Select(sel))), ty))
+    }
+
+    fn scalar_cmp(&mut self, stack: &mut Vec<Lvl>, depth_left: u32) -> Option<E> {
+        let cur = stack.last().unwrap().clone();
+        let has_float = !of_ty(&cur.local, Ty::Float).is_empty();
+        let r = self.rng.below(100);
+        let ty = if r < 60 {
+            Ty::Int
+        } else if r < 85 || !has_float {
+            Ty::Text
+        } else {
+            Ty::Float
+        };
+        let lc = of_ty(&cur.local, ty);
+        let left = if !lc.is_empty() && self.rng.chance(9, 10) { ce(self.rng.pick(&lc)) } else { self.lit_for(ty) };
+        let (s, _) = self.scalar(stack, depth_left, Some(ty))?;
+        let op = *self.rng.pick(CMPS);
+        Some(if self.rng.chance(4, 5) { bin(op, left, s) } else { bin(flip(op), s, left) })
+    }
+
+    fn new_col(&mut self) -> String {
+        self.n_col += 1;
+        format!("c{}", self.n_col)
+    }
+
+    fn agg_item(&mut self, cols: &[ScopeCol]) -> (E, Ty) {
+        // mostly COUNT(*) and MIN/MAX over numbers: the other aggregates are C16's subject and are kept rare here
+        let r = self.rng.below(100);
+        if r < 45 {
+            return (E::Agg(AggFn::CountStar, None), Ty::Int);
+        }
+        let nums: Vec<ScopeCol> = cols.iter().filter(|c| matches!(c.ty, Ty::Int | Ty::Float)).cloned().collect();
+        if r < 85 && !nums.is_empty() {
+            let c = self.rng.pick(&nums).clone();
+            return (E::Agg(if self.rng.chance(1, 2) { AggFn::Min } else { AggFn::Max }, Some(Box::new(ce(&c)))), c.ty);
+        }
+        let c = self.rng.pick(cols).clone();
+        let col = Some(Box::new(ce(&c)));
+        if r < 90 {
+            return (E::Agg(AggFn::Count, col), Ty::Int);
+        }
+        match c.ty {
+            Ty::Int if r < 95 && c.name != "id" => (E::Agg(AggFn::Sum, col), Ty::Int),
+            Ty::Float if r < 95 => (E::Agg(AggFn::Sum, col), Ty::Float),
+            Ty::Float | Ty::Int if r < 97 && c.name != "id" => (E::Agg(AggFn::Avg, col), Ty::Float),
+            ty => (E::Agg(if self.rng.chance(1, 2) { AggFn::Min } else { AggFn::Max }, col), ty),
+        }
+    }
+
+    /// a derived table: FROM item + the columns it exposes
+    fn derived_item(&mut self, depth_left: u32) -> Option<(FromItem, Lvl)> {
+        let (src, lvl) = if depth_left > 0 && self.rng.chance(1, 3) {
+            self.derived_item(depth_left - 1)?
+        } else {
+            let (f, l, _) = self.from_table()?;
+            (f, l)
+        };
+        self.n_alias += 1;
+        let alias = format!("d{}", self.n_alias);
+        let always_qualified = matches!(self.style, Style::Aliased | Style::TableQual);
+        let kind = self.rng.below(100);
+        let mut out: Vec<(String, Ty)> = vec![];
+        let mut sel = Select { from: vec![src], ..Default::default() };
+        let non_id: Vec<ScopeCol> = lvl.local.iter().filter(|c| c.name != "id").cloned().collect();
+        let non_id = if non_id.is_empty() { lvl.local.clone() } else { non_id };
+        if kind < 45 {
+            // projection + filter
+            let mut cs = lvl.local.clone();
+            self.rng.shuffle(&mut cs);
+            let n = self.rng.usize(1, 3).min(cs.len());
+            for c in cs.into_iter().take(n) {
+                if always_qualified && self.rng.chance(1, 4) {
+                    out.push((c.name.clone(), c.ty));
+                    sel.items.push(ex(ce(&c)));
+                } else {
+                    let a = self.new_col();
+                    out.push((a.clone(), c.ty));
+                    sel.items.push(Item::Expr { e: ce(&c), alias: Some(a) });
+                }
+            }
+            let mut conj = vec![];
+            if self.rng.chance(7, 10) {
+                conj.push(self.local_pred(&lvl.local));
+            }
+            if depth_left > 0 && self.rng.chance(1, 4) {
+                let mut st = vec![lvl.clone()];
+                if let Some(p) = self.subq_pred(&mut st, depth_left - 1) {
+                    conj.push(p);
+                }
+            }
+            sel.where_ = and_all(conj);
+            sel.distinct = self.rng.chance(1, 10);
+            if !sel.distinct && self.rng.chance(1, 12) {
+                if let Some(id) = lvl.local.iter().find(|c| c.name == "id") {
+                    sel.order_by = vec![OrderKey::Expr(ce(id), self.rng.chance(1, 3))];
+                    sel.limit = Some(self.rng.range(1, 6) as u64);
+                }
+            }
+        } else if kind < 80 {
+            // GROUP BY one column with aggregates
+            let g = self.rng.pick(&non_id).clone();
+            let a = self.new_col();
+            out.push((a.clone(), g.ty));
+            sel.items.push(Item::Expr { e: ce(&g), alias: Some(a) });
+            for _ in 0..self.rng.usize(1, 2) {
+                let (e, ty) = self.agg_item(&lvl.local);
+                let a = self.new_col();
+                out.push((a.clone(), ty));
+                sel.items.push(Item::Expr { e, alias: Some(a) });
+            }
+            sel.group_by = vec![ce(&g)];
+            if self.rng.chance(2, 5) {
+                sel.where_ = Some(self.local_pred(&lvl.local));
+            }
+            if self.rng.chance(3, 20) {
+                sel.having = Some(bin(*self.rng.pick(&[BinOp::Gt, BinOp::Ge, BinOp::Eq]), E::Agg(AggFn::CountStar, None), E::Lit(V::Int(self.rng.range(1, 2)))));
+            }
+        } else if kind < 90 {
+            // aggregate without GROUP BY: one row
+            for _ in 0..self.rng.usize(1, 2) {
+                let (e, ty) = self.agg_item(&lvl.local);
+                let a = self.new_col();
+                out.push((a.clone(), ty));
+                sel.items.push(Item::Expr { e, alias: Some(a) });
+            }
+            if self.rng.chance(3, 5) {
+                sel.where_ = Some(self.local_pred(&lvl.local));
+            }
+        } else {
+            // DISTINCT projection
+            sel.distinct = true;
+            let mut cs = non_id.clone();
+            self.rng.shuffle(&mut cs);
+            let n = self.rng.usize(1, 2).min(cs.len());
+            for c in cs.into_iter().take(n) {
+                let a = self.new_col();
+                out.push((a.clone(), c.ty));
+                sel.items.push(Item::Expr { e: ce(&c), alias: Some(a) });
+            }
+        }
+        Some((FromItem::Sub { query: Box::new(Query::Select(sel)), alias: alias.clone() }, self.derived_lvl(&alias, out)))
+    }
+
+    fn derived_lvl(&self, alias: &str, out: Vec<(String, Ty)>) -> Lvl {
+        let (lq, oq) = match self.style {
+            Style::Bare => (false, false),
+            Style::TableQual | Style::Aliased => (true, true),
+            Style::Mixed => (false, true),
+        };
+        let mk = |q: bool| -> Vec<ScopeCol> { out.iter().map(|(n, ty)| ScopeCol { tbl: if q { Some(alias.to_string()) } else { None }, name: n.clone(), ty: *ty }).collect() };
+        Lvl { local: mk(lq), outer: mk(oq) }
+    }
+
+    // ---- outer statements ----
+
+    /// SELECT .. FROM o WHERE <subquery predicates>
+    fn q_filter(&mut self, depth: u32) -> Option<Query> {
+        let (from, lvl, _) = self.from_table()?;
+        let mut stack = vec![lvl.clone()];
+        let p1 = self.subq_pred(&mut stack, depth - 1)?;
+        let r = self.rng.below(100);
+        let where_ = if r < 40 {
+            p1
+        } else if r < 70 {
+            let l = self.local_pred(&lvl.local);
+            if self.rng.chance(1, 2) {
+                bin(BinOp::And, l, p1)
+            } else {
+                bin(BinOp::And, p1, l)
+            }
+        } else if r < 80 {
+            match self.subq_pred(&mut stack, 0) {
+                Some(p2) => bin(BinOp::And, p1, p2),
+                None => p1,
+            }
+        } else if r < 92 {
+            let l = self.local_pred(&lvl.local);
+            bin(BinOp::Or, l, p1)
+        } else {
+            E::Not(Box::new(p1))
+        };
+        let mut sel = Select { from: vec![from], where_: Some(where_), ..Default::default() };
+        let id = lvl.local.iter().find(|c| c.name == "id").cloned();
+        let others: Vec<ScopeCol> = lvl.local.iter().filter(|c| c.name != "id").cloned().collect();
+        let r = self.rng.below(100);
+        if r < 40 || id.is_none() {
+            sel.items = vec![Item::Star];
+        } else if r < 86 {
+            sel.items = vec![ex(ce(id.as_ref().unwrap()))];
+            let mut cs = others.clone();
+            self.rng.shuffle(&mut cs);
+            for c in cs.into_iter().take(self.rng.usize(0, 2)) {
+                sel.items.push(ex(ce(&c)));
+            }
+            if self.rng.chance(1, 4) {
+                sel.order_by = vec![OrderKey::Expr(ce(id.as_ref().unwrap()), self.rng.chance(1, 3))];
+                if self.rng.chance(1, 3) {
+                    sel.limit = Some(self.rng.range(1, 4) as u64);
+                    if self.rng.chance(1, 4) {
+                        sel.offset = Some(self.rng.range(1, 2) as u64);
+                    }
+                }
+            }
+        } else {
+            sel.items = vec![ex(ce(self.rng.pick(&others)))];
+            sel.distinct = self.rng.chance(1, 3);
+        }
+        Some(Query::Select(sel))
+    }
+
+    /// SELECT id, (subquery) .. FROM o
+    fn q_select_list(&mut self, depth: u32) -> Option<Query> {
+        let (from, lvl, _) = self.from_table()?;
+        let mut stack = vec![lvl.clone()];
+        let id = lvl.local.iter().find(|c| c.name == "id")?.clone();
+        let mut sel = Select { from: vec![from], items: vec![ex(ce(&id))], ..Default::default() };
+        if self.rng.chance(1, 3) {
+            let others: Vec<ScopeCol> = lvl.local.iter().filter(|c| c.name != "id").cloned().collect();
+            sel.items.push(ex(ce(self.rng.pick(&others))));
+        }
+        let n = if self.rng.chance(1, 5) { 2 } else { 1 };
+        for _ in 0..n {
+            let r = self.rng.below(100);
+            let e = if r < 76 {
+                let (s, ty) = self.scalar(&mut stack, depth - 1, None)?;
+                let w = self.rng.below(100);
+                if w < 12 {
+                    let l = self.lit_for(ty);
+                    E::Func("COALESCE".into(), vec![s, l])
+                } else if w < 20 && ty == Ty::Int {
+                    bin(BinOp::Add, s, E::Lit(V::Int(1)))
+                } else {
+                    s
+                }
+            } else if r < 89 {
+                let neg = self.rng.chance(1, 2);
+                self.in_sub(&mut stack, depth - 1, neg)?
+            } else {
+                let neg = self.rng.chance(1, 2);
+                self.exists(&mut stack, depth - 1, neg)?
+            };
+            let alias = if self.rng.chance(1, 2) { Some(self.new_col()) } else { None };
+            sel.items.push(Item::Expr { e, alias });
+        }
+        if self.rng.chance(3, 10) {
+            sel.where_ = Some(self.local_pred(&lvl.local));
+        }
+        if self.rng.chance(1, 5) {
+            sel.order_by = vec![OrderKey::Expr(ce(&id), self.rng.chance(1, 3))];
+        }
+        Some(Query::Select(sel))
+    }
+
+    /// SELECT .. FROM (SELECT ..) AS d ..
+    fn q_derived(&mut self, depth: u32) -> Option<Query> {
+        let r = self.rng.below(100);
+        if r < 8 {
+            // derived table over a set operation
+            let tys: Vec<Ty> = if self.rng.chance(1, 2) { vec![Ty::Int] } else { vec![Ty::Int, Ty::Text] };
+            let a = self.setop_branch(&tys, 1)?;
+            let b = self.setop_branch(&tys, 1)?;
+            let (kind, all) = self.pick_setop();
+            let names: Vec<(String, Ty)> = a.items.iter().zip(tys.iter()).filter_map(|(it, ty)| if let Item::Expr { e: E::Col { name, .. }, .. } = it { Some((name.clone(), *ty)) } else { None }).collect();
+            self.n_alias += 1;
+            let alias = format!("d{}", self.n_alias);
+            let dl = self.derived_lvl(&alias, names);
+            let q = Query::SetOp { kind, all, left: Box::new(Query::Select(a)), right: Box::new(Query::Select(b)), order_by: vec![], limit: None, offset: None };
+            let mut sel = Select { items: vec![Item::Star], from: vec![FromItem::Sub { query: Box::new(q), alias }], ..Default::default() };
+            if self.rng.chance(2, 5) {
+                sel.where_ = Some(self.atom(&dl.local));
+            }
+            return Some(Query::Select(sel));
+        }
+        let (d, dl) = self.derived_item(depth - 1)?;
+        if r < 26 {
+            // base table joined with the derived table
+            let (from, lvl, _) = self.from_table()?;
+            let ty = if !of_ty(&dl.local, Ty::Int).is_empty() && self.rng.chance(3, 4) { Ty::Int } else { Ty::Text };
+            let (bc, dc) = (of_ty(&lvl.local, ty), of_ty(&dl.local, ty));
+            if bc.is_empty() || dc.is_empty() {
+                return None;
+            }
+            let on = bin(BinOp::Eq, ce(self.rng.pick(&bc)), ce(self.rng.pick(&dc)));
+            let kind = if self.rng.chance(7, 10) { JoinKind::Inner } else { JoinKind::Left };
+            let id = lvl.local.iter().find(|c| c.name == "id")?.clone();
+            let mut items = vec![ex(ce(&id))];
+            for c in &dl.local {
+                items.push(ex(ce(c)));
+            }
+            let mut sel = Select { items, from: vec![from], joins: vec![Join { kind, item: d, on: Some(on) }], ..Default::default() };
+            if self.rng.chance(3, 10) {
+                sel.where_ = Some(self.atom(&lvl.local));
+            }
+            return Some(Query::Select(sel));
+        }
+        if r < 38 {
+            // aggregate over the derived table
+            let mut items = vec![ex(E::Agg(AggFn::CountStar, None))];
+            let (e, _) = self.agg_item(&dl.local);
+            items.push(ex(e));
+            return Some(Query::Select(Select { items, from: vec![d], ..Default::default() }));
+        }
+        let mut sel = Select { from: vec![d], ..Default::default() };
+        let explicit = self.rng.chance(7, 10);
+        if explicit {
+            let mut cs = dl.local.clone();
+            if cs.len() > 1 && self.rng.chance(1, 3) {
+                cs.pop();
+            }
+            sel.items = cs.iter().map(|c| ex(ce(c))).collect();
+        } else {
+            sel.items = vec![Item::Star];
+        }
+        let w = self.rng.below(100);
+        if w < 50 {
+            sel.where_ = Some(self.local_pred(&dl.local));
+        } else if w < 62 && depth > 1 {
+            let mut st = vec![dl.clone()];
+            sel.where_ = self.subq_pred(&mut st, 0);
+        }
+        if explicit && self.rng.chance(1, 5) {
+            sel.order_by = vec![OrderKey::Expr(ce(&dl.local[0]), self.rng.chance(1, 3))];
+        }
+        Some(Query::Select(sel))
+    }
+
+    fn setop_branch(&mut self, tys: &[Ty], depth: u32) -> Option<Select> {
+        self.used.clear();
+        let (from, lvl) = if depth > 1 && self.rng.chance(1, 10) {
+            self.derived_item(depth - 2)?
+        } else {
+            let (f, l, _) = self.from_table()?;
+            (f, l)
+        };
+        let mut items = vec![];
+        let mut taken: Vec<String> = vec![];
+        for ty in tys {
+            let cands: Vec<ScopeCol> = of_ty(&lvl.local, *ty).into_iter().filter(|c| !taken.contains(&c.name)).collect();
+            if cands.is_empty() {
+                return None;
+            }
+            let c = self.rng.pick(&cands).clone();
+            taken.push(c.name.clone());
+            items.push(ex(ce(&c)));
+        }
+        let r = self.rng.below(100);
+        let where_ = if r < 50 {
+            Some(self.local_pred(&lvl.local))
+        } else if r < 58 && depth > 1 {
+            let mut st = vec![lvl.clone()];
+            self.subq_pred(&mut st, depth - 2)
+        } else {
+            None
+        };
+        Some(Select { distinct: self.rng.chance(1, 16), items, from: vec![from], where_, ..Default::default() })
+    }
+
+    fn q_setop(&mut self, depth: u32) -> Option<Query> {
+        let r = self.rng.below(100);
+        let tys: Vec<Ty> = if r < 35 {
+            vec![Ty::Int]
+        } else if r < 60 {
+            vec![Ty::Text]
+        } else if r < 85 {
+            vec![Ty::Int, Ty::Text]
+        } else {
+            vec![Ty::Int, Ty::Int]
+        };
+        let a = self.setop_branch(&tys, depth)?;
+        let b = self.setop_branch(&tys, depth)?;
+        let first_name = match &a.items[0] {
+            Item::Expr { e: E::Col { name, .. }, .. } => name.clone(),
+            _ => return None,
+        };
+        let (k1, all1) = self.pick_setop();
+        let mut left = Query::SetOp { kind: k1, all: all1, left: Box::new(Query::Select(a)), right: Box::new(Query::Select(b)), order_by: vec![], limit: None, offset: None };
+        if self.rng.chance(3, 10) {
+            // second operation, only where the flat rendering has one reading under the standard precedence
+            // (INTERSECT binds tighter, otherwise left to right)
+            let c = self.setop_branch(&tys, depth)?;
+            let (k2, all2) = loop {
+                let (k, a) = self.pick_setop();
+                if k != SetKind::Intersect || k1 == SetKind::Intersect {
+                    break (k, a);
+                }
+            };
+            left = Query::SetOp { kind: k2, all: all2, left: Box::new(left), right: Box::new(Query::Select(c)), order_by: vec![], limit: None, offset: None };
+        }
+        if let Query::SetOp { order_by, limit, offset, .. } = &mut left {
+            if self.rng.chance(3, 10) {
+                let n = tys.len();
+                let k = self.rng.below(100);
+                let mut all_cols = false;
+                if k < 50 {
+                    for i in 0..n {
+                        order_by.push(OrderKey::Ordinal(i + 1, self.rng.chance(3, 10)));
+                    }
+                    all_cols = true;
+                } else if k < 75 {
+                    order_by.push(OrderKey::Ordinal(1, self.rng.chance(3, 10)));
+                    all_cols = n == 1;
+                } else {
+                    order_by.push(OrderKey::Expr(E::Col { tbl: None, name: first_name }, self.rng.chance(3, 10)));
+                    all_cols = n == 1;
+                }
+                if all_cols && self.rng.chance(2, 5) {
+                    *limit = Some(self.rng.range(1, 5) as u64);
+                    if self.rng.chance(1, 5) {
+                        *offset = Some(self.rng.range(1, 2) as u64);
+                    }
+                }
+            }
+        }
+        Some(left)
+    }
+}
+
+/// one generated statement: (query, family, style)
+fn gen_query(rng: &mut Rng, specs: &[TableSpec], nrows: &[usize]) -> Option<(Query, &'static str)> {
+    let style = match rng.below(100) {
+        0..=29 => Style::Bare,
+        30..=44 => Style::TableQual,
+        45..=74 => Style::Aliased,
+        _ => Style::Mixed,
+    };
+    let depth = match rng.below(100) {
+        0..=54 => 1,
+        55..=84 => 2,
+        _ => 3,
+    };
+    let fam = rng.below(100);
+    let mut g = Gen { rng, specs, nrows: nrows.to_vec(), style, n_alias: 0, n_col: 0, used: vec![] };
+    if fam < 38 {
+        g.q_filter(depth).map(|q| (q, "filter"))
+    } else if fam < 55 {
+        g.q_select_list(depth).map(|q| (q, "select_list"))
+    } else if fam < 75 {
+        g.q_derived(depth).map(|q| (q, "derived"))
+    } else {
+        g.q_setop(depth).map(|q| (q, "setop"))
+    }
+}
+
+// ---------------------------------------------------------------------------------------------
+// traversal helpers
+// ---------------------------------------------------------------------------------------------
+
+/// direct subqueries of an expression (not the ones nested inside them)
+fn each_subquery(e: &E, f: &mut dyn FnMut(&Query)) {
+    match e {
+        E::InSub(l, q, _) => {
+            each_subquery(l, f);
+            f(q);
+        }
+        E::Exists(q, _) | E::Scalar(q) => f(q),
+        E::Neg(x) | E::Not(x) | E::IsNull(x, _) => each_subquery(x, f),
+        E::Bin(_, a, b) | E::Like(a, b, _) => {
+            each_subquery(a, f);
+            each_subquery(b, f);
+        }
+        E::InList(x, l, _) => {
+            each_subquery(x, f);
+            for y in l {
+                each_subquery(y, f);
+            }
+        }
+        E::Between(x, a, b, _) => {
+            each_subquery(x, f);
+            each_subquery(a, f);
+            each_subquery(b, f);
+        }
+        E::Case { whens, els } => {
+            for (w, t) in whens {
+                each_subquery(w, f);
+                each_subquery(t, f);
+            }
+            if let Some(x) = els {
+                each_subquery(x, f);
+            }
+        }
+        E::Func(_, args) => {
+            for x in args {
+                each_subquery(x, f);
+            }
+        }
+        E::Agg(_, Some(x)) => each_subquery(x, f),
+        _ => {}
+    }
+}
+
+fn select_exprs(s: &Select) -> Vec<&E> {
+    let mut v: Vec<&E> = vec![];
+    for it in &s.items {
+        if let Item::Expr { e, .. } = it {
+            v.push(e);
+        }
+    }
+    v.extend(s.where_.iter());
+    v.extend(s.having.iter());
+    v.extend(s.group_by.iter());
+    for j in &s.joins {
+        v.extend(j.on.iter());
+    }
+    for k in &s.order_by {
+        if let OrderKey::Expr(e, _) = k {
+            v.push(e);
+        }
+    }
+    v
+}
+
+/// every SELECT block anywhere in the query
+fn each_select(q: &Query, f: &mut dyn FnMut(&Select)) {
+    match q {
+        Query::Select(s) => {
+            f(s);
+            for it in s.from.iter().chain(s.joins.iter().map(|j| &j.item)) {
+                if let FromItem::Sub { query, .. } = it {
+                    each_select(query, f);
+                }
+            }
+            for e in select_exprs(s) {
+                each_subquery(e, &mut |q| each_select(q, f));
+            }
+        }
+        Query::SetOp { left, right, .. } => {
+            each_select(left, f);
+            each_select(right, f);
+        }
+    }
+}
+
+fn tables_used(q: &Query) -> Vec<String> {
+    let mut v = vec![];
+    each_select(q, &mut |s| {
+        for it in s.from.iter().chain(s.joins.iter().map(|j| &j.item)) {
+            if let FromItem::Table { name, .. } = it {
+                v.push(name.clone());
+            }
+        }
+    });
+    v
+}
+
+fn mut_expr(e: &mut E, fe: &mut dyn FnMut(&mut E), ff: &mut dyn FnMut(&mut FromItem)) {
+    fe(e);
+    match e {
+        E::InSub(l, q, _) => {
+            mut_expr(l, fe, ff);
+            mut_query(q, fe, ff);
+        }
+        E::Exists(q, _) | E::Scalar(q) => mut_query(q, fe, ff),
+        E::Neg(x) | E::Not(x) | E::IsNull(x, _) => mut_expr(x, fe, ff),
+        E::Bin(_, a, b) | E::Like(a, b, _) => {
+            mut_expr(a, fe, ff);
+            mut_expr(b, fe, ff);
+        }
+        E::InList(x, l, _) => {
+            mut_expr(x, fe, ff);
+            for y in l.iter_mut() {
+                mut_expr(y, fe, ff);
+            }
+        }
+        E::Between(x, a, b, _) => {
+            mut_expr(x, fe, ff);
+            mut_expr(a, fe, ff);
+            mut_expr(b, fe, ff);
+        }
+        E::Case { whens, els } => {
+            for (w, t) in whens.iter_mut() {
+                mut_expr(w, fe, ff);
+                mut_expr(t, fe, ff);
+            }
+            if let Some(x) = els {
+                mut_expr(x, fe, ff);
+            }
+        }
+        E::Func(_, args) => {
+            for x in args.iter_mut() {
+                mut_expr(x, fe, ff);
+            }
+        }
+        E::Agg(_, Some(x)) => mut_expr(x, fe, ff),
+        _ => {}
+    }
+}
+
+fn mut_query(q: &mut Query, fe: &mut dyn FnMut(&mut E), ff: &mut dyn FnMut(&mut FromItem)) {
+    match q {
+        Query::Select(s) => {
+            for it in s.from.iter_mut().chain(s.joins.iter_mut().map(|j| &mut j.item)) {
+                ff(it);
+                if let FromItem::Sub { query, .. } = it {
+                    mut_query(query, fe, ff);
+                }
+            }
+            for j in s.joins.iter_mut() {
+                if let Some(on) = &mut j.on {
+                    mut_expr(on, fe, ff);
+                }
+            }
+            for it in s.items.iter_mut() {
+                if let Item::Expr { e, .. } = it {
+                    mut_expr(e, fe, ff);
+                }
+            }
+            for e in s.where_.iter_mut().chain(s.having.iter_mut()).chain(s.group_by.iter_mut()) {
+                mut_expr(e, fe, ff);
+            }
+            for k in s.order_by.iter_mut() {
+                if let OrderKey::Expr(e, _) = k {
+                    mut_expr(e, fe, ff);
+                }
+            }
+        }
+        Query::SetOp { left, right, order_by, .. } => {
+            mut_query(left, fe, ff);
+            mut_query(right, fe, ff);
+            for k in order_by.iter_mut() {
+                if let OrderKey::Expr(e, _) = k {
+                    mut_expr(e, fe, ff);
+                }
+            }
+        }
+    }
+}
+
+/// the same statement without aliases and qualifiers; None if a base table occurs twice or nothing would change
+fn strip_qualifiers(q: &Query) -> Option<Query> {
+    let used = tables_used(q);
+    let distinct: BTreeSet<&String> = used.iter().collect();
+    if distinct.len() != used.len() {
+        return None;
+    }
+    let mut changed = false;
+    let mut q2 = q.clone();
+    {
+        let ch = std::cell::Cell::new(false);
+        mut_query(
+            &mut q2,
+            &mut |e| {
+                if let E::Col { tbl, .. } = e {
+                    if tbl.is_some() {
+                        *tbl = None;
+                        ch.set(true);
+                    }
+                }
+            },
+            &mut |f| {
+                if let FromItem::Table { alias, .. } = f {
+                    if alias.is_some() {
+                        *alias = None;
+                        ch.set(true);
+                    }
+                }
+            },
+        );
+        if ch.get() {
+            changed = true;
+        }
+    }
+    if changed {
+        Some(q2)
+    } else {
+        None
+    }
+}
+
+/// output column names of a query, as the model names them
+fn output_names(q: &Query, specs: &[TableSpec]) -> Vec<String> {
+    match q {
+        Query::SetOp { left, .. } => output_names(left, specs),
+        Query::Select(s) => {
+            let mut v = vec![];
+            for it in &s.items {
+                match it {
+                    Item::Star => {
+                        for f in s.from.iter().chain(s.joins.iter().map(|j| &j.item)) {
+                            v.extend(from_cols(f, specs).1);
+                        }
+                    }
+                    Item::Expr { alias: Some(a), .. } => v.push(a.clone()),
+                    Item::Expr { e: E::Col { name, .. }, .. } => v.push(name.clone()),
+                    Item::Expr { e, .. } => v.push(e.sql()),
+                }
+            }
+            v
+        }
+    }
+}
+
+fn from_cols(f: &FromItem, specs: &[TableSpec]) -> (String, Vec<String>) {
+    match f {
+        FromItem::Table { name, alias } => (alias.clone().unwrap_or_else(|| name.clone()), specs.iter().find(|s| s.name.eq_ignore_ascii_case(name)).map(|s| s.col_names()).unwrap_or_default()),
+        FromItem::Sub { query, alias } => (alias.clone(), output_names(query, specs)),
+    }
+}
+
+type Scope = Vec<(String, Vec<String>)>;
+
+fn resolves(scopes: &[Scope], tbl: &Option<String>, name: &str) -> bool {
+    scopes.iter().any(|sc| sc.iter().any(|(a, cols)| tbl.as_ref().map(|t| t.eq_ignore_ascii_case(a)).unwrap_or(true) && cols.iter().any(|c| c.eq_ignore_ascii_case(name))))
+}
+
+fn expr_free(e: &E, specs: &[TableSpec], scopes: &mut Vec<Scope>, aliases: &[String]) -> bool {
+    let mut free = false;
+    // column references at this level
+    let mut cols: Vec<(Option<String>, String)> = vec![];
+    e.visit(&mut |x| {
+        if let E::Col { tbl, name } = x {
+            cols.push((tbl.clone(), name.clone()));
+        }
+    });
+    for (t, n) in cols {
+        if t.is_none() && aliases.iter().any(|a| a.eq_ignore_ascii_case(&n)) {
+            continue;
+        }
+        if !resolves(scopes, &t, &n) {
+            free = true;
+        }
+    }
+    let mut subs: Vec<Query> = vec![];
+    each_subquery(e, &mut |q| subs.push(q.clone()));
+    for q in subs {
+        if query_free(&q, specs, scopes) {
+            free = true;
+        }
+    }
+    free
+}
+
+/// does the query reference a column that is bound outside of it (given the scopes opened since the root)?
+fn query_free(q: &Query, specs: &[TableSpec], scopes: &mut Vec<Scope>) -> bool {
+    match q {
+        Query::SetOp { left, right, .. } => {
+            let a = query_free(left, specs, scopes);
+            let b = query_free(right, specs, scopes);
+            a || b
+        }
+        Query::Select(s) => {
+            let mut free = false;
+            let mut sc: Scope = vec![];
+            for f in s.from.iter().chain(s.joins.iter().map(|j| &j.item)) {
+                if let FromItem::Sub { query, .. } = f {
+                    if query_free(query, specs, scopes) {
+                        free = true;
+                    }
+                }
+                sc.push(from_cols(f, specs));
+            }
+            scopes.push(sc);
+            let aliases: Vec<String> = s.items.iter().filter_map(|i| if let Item::Expr { alias: Some(a), .. } = i { Some(a.clone()) } else { None }).collect();
+            for e in select_exprs(s) {
+                if expr_free(e, specs, scopes, &aliases) {
+                    free = true;
+                }
+            }
+            scopes.pop();
+            free
+        }
+    }
+}
+
+fn is_correlated(q: &Query, specs: &[TableSpec]) -> bool {
+    query_free(q, specs, &mut vec![])
+}
+
+// ---------------------------------------------------------------------------------------------
+// description of a (minimal) statement: forms + context features
+// ---------------------------------------------------------------------------------------------
+
+#[derive(Default, Debug)]
+struct Desc {
+    forms: BTreeSet<String>,
+    ctx: BTreeSet<String>,
+    max_depth: u32,
+    qualified: bool,
+}
+
+fn pfx(depth: u32) -> &'static str {
+    if depth == 0 {
+        ""
+    } else {
+        "sub."
+    }
+}
+
+fn desc_expr(e: &E, depth: u32, pos: &str, d: &mut Desc, specs: &[TableSpec]) {
+    let p = pfx(depth);
+    let sub_form = |name: &str, q: &Query| -> String {
+        let mut f = format!("{}{}", p, name);
+        if pos == "select_list" {
+            f.push_str("/select_list");
+        } else if name == "scalar_subquery" {
+            f.push_str("/where");
+        }
+        if is_correlated(q, specs) {
+            f.push_str(":correlated");
+        }
+        f
+    };
+    match e {
+        E::Col { tbl, .. } => {
+            if tbl.is_some() {
+                d.qualified = true;
+            }
+        }
+        E::Lit(V::Null) => {
+            d.ctx.insert(format!("{}null_literal", p));
+        }
+        E::Lit(_) => {}
+        E::Agg(f, arg) => {
+            d.ctx.insert(format!("{}agg:{:?}", p, f).to_lowercase());
+            if let Some(a) = arg {
+                desc_expr(a, depth, pos, d, specs);
+            }
+        }
+        E::Not(x) => {
+            d.ctx.insert(format!("{}not", p));
+            desc_expr(x, depth, pos, d, specs);
+        }
+        E::Neg(x) => desc_expr(x, depth, pos, d, specs),
+        E::IsNull(x, _) => {
+            d.ctx.insert(format!("{}filter", p));
+            desc_expr(x, depth, pos, d, specs);
+        }
+        E::InList(x, l, _) => {
+            d.ctx.insert(format!("{}filter", p));
+            desc_expr(x, depth, pos, d, specs);
+            for y in l {
+                desc_expr(y, depth, pos, d, specs);
+            }
+        }
+        E::Between(x, a, b, _) => {
+            d.ctx.insert(format!("{}filter", p));
+            for y in [x, a, b] {
+                desc_expr(y, depth, pos, d, specs);
+            }
+        }
+        E::Like(a, b, _) => {
+            d.ctx.insert(format!("{}filter", p));
+            desc_expr(a, depth, pos, d, specs);
+            desc_expr(b, depth, pos, d, specs);
+        }
+        E::Case { whens, els } => {
+            d.ctx.insert(format!("{}case", p));
+            for (w, t) in whens {
+                desc_expr(w, depth, pos, d, specs);
+                desc_expr(t, depth, pos, d, specs);
+            }
+            if let Some(x) = els {
+                desc_expr(x, depth, pos, d, specs);
+            }
+        }
+        E::Func(n, args) => {
+            d.ctx.insert(format!("{}fn:{}", p, n.to_lowercase()));
+            for x in args {
+                desc_expr(x, depth, pos, d, specs);
+            }
+        }
+        E::Bin(op, a, b) => {
+            match op {
+                BinOp::And => {
+                    d.ctx.insert(format!("{}and", p));
+                }
+                BinOp::Or => {
+                    d.ctx.insert(format!("{}or", p));
+                }
+                o if o.is_arith() => {
+                    d.ctx.insert(format!("{}arith", p));
+                }
+                _ => {
+                    let is_sub = |x: &E| matches!(x, E::Scalar(_));
+                    let is_pk = |x: &E| matches!(x, E::Col { name, .. } if name == "id");
+                    if !is_sub(a) && !is_sub(b) {
+                        match (&**a, &**b) {
+                            (E::Col { .. }, E::Col { .. }) => {
+                                d.ctx.insert(format!("{}filter", p));
+                            }
+                            _ if (is_pk(a) || is_pk(b)) && *op == BinOp::Eq => {
+                                d.ctx.insert(format!("{}pk_eq", p));
+                            }
+                            _ => {
+                                d.ctx.insert(format!("{}filter", p));
+                            }
+                        }
+                    }
+                }
+            }
+            desc_expr(a, depth, pos, d, specs);
+            desc_expr(b, depth, pos, d, specs);
+        }
+        E::InSub(l, q, neg) => {
+            d.forms.insert(sub_form(if *neg { "not_in_subquery" } else { "in_subquery" }, q));
+            d.max_depth = d.max_depth.max(depth + 1);
+            desc_expr(l, depth, pos, d, specs);
+            desc_query(q, depth + 1, d, specs);
+        }
+        E::Exists(q, neg) => {
+            d.forms.insert(sub_form(if *neg { "not_exists" } else { "exists" }, q));
+            d.max_depth = d.max_depth.max(depth + 1);
+            desc_query(q, depth + 1, d, specs);
+        }
+        E::Scalar(q) => {
+            d.forms.insert(sub_form("scalar_subquery", q));
+            d.max_depth = d.max_depth.max(depth + 1);
+            desc_query(q, depth + 1, d, specs);
+        }
+    }
+}
+
+fn desc_query(q: &Query, depth: u32, d: &mut Desc, specs: &[TableSpec]) {
+    let p = pfx(depth);
+    match q {
+        Query::SetOp { kind, all, left, right, order_by, limit, offset } => {
+            d.forms.insert(format!("{}setop:{:?}{}", p, kind, if *all { "_all" } else { "" }).to_lowercase());
+            if matches!(**left, Query::SetOp { .. }) || matches!(**right, Query::SetOp { .. }) {
+                d.ctx.insert(format!("{}chain", p));
+            }
+            if !order_by.is_empty() {
+                d.ctx.insert(format!("{}order_by", p));
+                if order_by.iter().any(|k| matches!(k, OrderKey::Expr(..))) {
+                    d.ctx.insert(format!("{}order_by_name", p));
+                }
+            }
+            if limit.is_some() || offset.is_some() {
+                d.ctx.insert(format!("{}limit", p));
+            }
+            desc_query(left, depth, d, specs);
+            desc_query(right, depth, d, specs);
+        }
+        Query::Select(s) => {
+            if s.distinct {
+                d.ctx.insert(format!("{}distinct", p));
+            }
+            if !s.group_by.is_empty() {
+                d.ctx.insert(format!("{}group_by", p));
+            }
+            if s.having.is_some() {
+                d.ctx.insert(format!("{}having", p));
+            }
+            if !s.order_by.is_empty() {
+                d.ctx.insert(format!("{}order_by", p));
+            }
+            if s.limit.is_some() || s.offset.is_some() {
+                d.ctx.insert(format!("{}limit", p));
+            }
+            if s.items.iter().any(|i| matches!(i, Item::Star)) {
+                d.ctx.insert(format!("{}star", p));
+            }
+            for j in &s.joins {
+                d.ctx.insert(format!("{}join:{:?}", p, j.kind).to_lowercase());
+            }
+            for f in s.from.iter().chain(s.joins.iter().map(|j| &j.item)) {
+                match f {
+                    FromItem::Table { alias, .. } => {
+                        if alias.is_some() {
+                            d.qualified = true;
+                        }
+                    }
+                    FromItem::Sub { query, .. } => {
+                        d.forms.insert(format!("{}derived_table", p));
+                        d.max_depth = d.max_depth.max(depth + 1);
+                        desc_query(query, depth + 1, d, specs);
+                    }
+                }
+            }
+            for it in &s.items {
+                if let Item::Expr { e, .. } = it {
+                    desc_expr(e, depth, "select_list", d, specs);
+                }
+            }
+            if let Some(w) = &s.where_ {
+                desc_expr(w, depth, "where", d, specs);
+            }
+            if let Some(h) = &s.having {
+                desc_expr(h, depth, "where", d, specs);
+            }
+            for g in &s.group_by {
+                desc_expr(g, depth, "where", d, specs);
+            }
+            for j in &s.joins {
+                if let Some(on) = &j.on {
+                    desc_expr(on, depth, "where", d, specs);
+                }
+            }
+        }
+    }
+}
+
+fn describe(q: &Query, specs: &[TableSpec]) -> Desc {
+    let mut d = Desc::default();
+    desc_query(q, 0, &mut d, specs);
+    if d.max_depth >= 2 {
+        d.ctx.insert(format!("nest{}", d.max_depth));
+    }
+    d
+}
+
+// ---------------------------------------------------------------------------------------------
+// data facts of a (minimal) case, evaluated in the model
+// ---------------------------------------------------------------------------------------------
+
+fn set_first_alias(q: &mut Query, a: &str) -> bool {
+    match q {
+        Query::SetOp { left, .. } => set_first_alias(left, a),
+        Query::Select(s) => match s.items.first_mut() {
+            Some(Item::Expr { alias, .. }) => {
+                *alias = Some(a.to_string());
+                true
+            }
+            _ => false,
+        },
+    }
+}
+
+/// subquery expressions directly inside `e` (not those nested in other subqueries)
+fn direct_sub_exprs(e: &E, out: &mut Vec<E>) {
+    match e {
+        E::InSub(..) | E::Exists(..) | E::Scalar(..) => out.push(e.clone()),
+        E::Neg(x) | E::Not(x) | E::IsNull(x, _) => direct_sub_exprs(x, out),
+        E::Bin(_, a, b) => {
+            direct_sub_exprs(a, out);
+            direct_sub_exprs(b, out);
+        }
+        E::Func(_, args) => {
+            for x in args {
+                direct_sub_exprs(x, out);
+            }
+        }
+        _ => {}
+    }
+}
+
+fn count_scalar(sq: &Query, only_null: bool) -> E {
+    let mut s = Select { items: vec![ex(E::Agg(AggFn::CountStar, None))], from: vec![FromItem::Sub { query: Box::new(sq.clone()), alias: "zz".into() }], ..Default::default() };
+    if only_null {
+        s.where_ = Some(E::IsNull(Box::new(E::Col { tbl: Some("zz".into()), name: "zc".into() }), false));
+    }
+    E::Scalar(Box::new(Query::Select(s)))
+}
+
+fn as_int(v: &V) -> i64 {
+    match v {
+        V::Int(i) => *i,
+        _ => -1,
+    }
+}
+
+fn facts(q: &Query, tables: &BTreeMap<String, MTable>) -> BTreeSet<String> {
+    let mut out = BTreeSet::new();
+    match q {
+        Query::SetOp { .. } => {
+            let mut leaves: Vec<Query> = vec![];
+            fn collect(q: &Query, v: &mut Vec<Query>) {
+                match q {
+                    Query::SetOp { left, right, .. } => {
+                        collect(left, v);
+                        collect(right, v);
+                    }
+                    s => v.push(s.clone()),
+                }
+            }
+            collect(q, &mut leaves);
+            for l in &leaves {
+                if let Ok(m) = run_model(l, tables) {
+                    if m.rows.iter().any(|r| r.iter().any(|v| v.is_null())) {
+                        out.insert("null_rows".to_string());
+                    }
+                    let keys: BTreeSet<String> = m.rows.iter().map(|r| row_key(r, true)).collect();
+                    if keys.len() < m.rows.len() {
+                        out.insert("dup_rows".to_string());
+                    }
+                }
+            }
+        }
+        Query::Select(s) => {
+            let mut subs: Vec<E> = vec![];
+            for it in &s.items {
+                if let Item::Expr { e, .. } = it {
+                    direct_sub_exprs(e, &mut subs);
+                }
+            }
+            if let Some(w) = &s.where_ {
+                direct_sub_exprs(w, &mut subs);
+            }
+            for e in subs {
+                let mut aux = Select { from: s.from.clone(), joins: s.joins.clone(), ..Default::default() };
+                match &e {
+                    E::InSub(l, sq, _) => {
+                        let mut sq2 = (**sq).clone();
+                        if !set_first_alias(&mut sq2, "zc") {
+                            continue;
+                        }
+                        aux.items = vec![ex((**l).clone()), ex(count_scalar(&sq2, false)), ex(count_scalar(&sq2, true))];
+                        if let Ok(m) = run_model(&Query::Select(aux), tables) {
+                            for r in &m.rows {
+                                if r[0].is_null() {
+                                    out.insert("null_left_operand".to_string());
+                                    if as_int(&r[1]) == 0 {
+                                        out.insert("empty_subquery_result".to_string());
+                                    }
+                                }
+                                if as_int(&r[2]) > 0 {
+                                    out.insert("null_in_subquery_result".to_string());
+                                }
+                            }
+                        }
+                    }
+                    E::Scalar(sq) => {
+                        aux.items = vec![ex(count_scalar(sq, false))];
+                        if let Ok(m) = run_model(&Query::Select(aux), tables) {
+                            for r in &m.rows {
+                                match as_int(&r[0]) {
+                                    0 => {
+                                        out.insert("zero_rows".to_string());
+                                    }
+                                    n if n > 1 => {
+                                        out.insert("multi_rows".to_string());
+                                    }
+                                    _ => {}
+                                }
+                            }
+                        }
+                    }
+                    _ => {}
+                }
+            }
+            for f in s.from.iter().chain(s.joins.iter().map(|j| &j.item)) {
+                if let FromItem::Sub { query, .. } = f {
+                    if let Query::Select(ds) = &**query {
+                        if !ds.group_by.is_empty() {
+                            if let Ok(m) = run_model(query, tables) {
+                                if m.rows.iter().any(|r| r.first().map(|v| v.is_null()).unwrap_or(false)) {
+                                    out.insert("null_group_key".to_string());
+                                }
+                            }
+                        }
+                    }
+                }
+            }
+        }
+    }
+    out
+}
+
+// ---------------------------------------------------------------------------------------------
+// the oracle for one statement
+// ---------------------------------------------------------------------------------------------
+
+struct Failure {
+    /// full sub-assertion incl. cause class, e.g. "bag", "ok_vs_err:expected_error", "ok_vs_err:unexpected_error:<class>"
+    assertion: String,
+    detail: J,
+}
+
+enum Checked {
+    Judged,
+    Dropped(&'static str),
+    Fail(Failure),
+}
+
+/// stable class of an error message: its first words, without identifiers of the generated schema
+fn err_class(e: &str) -> String {
+    e.split(|c: char| !(c.is_ascii_alphanumeric() || c == '_'))
+        .filter(|w| !w.is_empty() && w.chars().all(|c| c.is_ascii_alphabetic() || c == '_'))
+        .map(|w| w.to_lowercase())
+        .filter(|w| !matches!(w.as_str(), "ta" | "tb" | "tc" | "id"))
+        .take(7)
+        .collect::<Vec<_>>()
+        .join("_")
+}
+
+fn simple_operand(e: &E) -> bool {
+    match e {
+        E::Col { .. } | E::Lit(_) => true,
+        E::Scalar(q) => {
+            // the scalar subquery itself must not contain further subqueries (their errors would be order dependent)
+            let mut n = 0;
+            each_select(q, &mut |_| n += 1);
+            n == 1
+        }
+        E::Bin(op, a, b) if op.is_arith() || op.is_cmp() => simple_operand(a) && simple_operand(b),
+        E::Func(n, args) if n.eq_ignore_ascii_case("COALESCE") => args.iter().all(simple_operand),
+        _ => false,
+    }
+}
+
+/// a "more than one row" error of the model cannot be avoided by any evaluation order: the scalar subqueries sit
+/// directly in the select list or are the sole WHERE comparison of a single-table statement
+fn error_unavoidable(q: &Query) -> bool {
+    match q {
+        Query::Select(s) => {
+            s.joins.is_empty()
+                && s.from.len() == 1
+                && matches!(s.from[0], FromItem::Table { .. })
+                && s.group_by.is_empty()
+                && s.having.is_none()
+                && s.limit.is_none()
+                && s.offset.is_none()
+                && s.where_.as_ref().map(|w| matches!(w, E::Bin(op, ..) if op.is_cmp()) && simple_operand(w)).unwrap_or(true)
+                && s.items.iter().all(|i| match i {
+                    Item::Star => true,
+                    Item::Expr { e, .. } => simple_operand(e),
+                })
+        }
+        _ => false,
+    }
+}
+
+fn check(db: &mut Db, tables: &BTreeMap<String, MTable>, q: &Query) -> Checked {
+    let sql = q.sql();
+    let model = match run_model(q, tables) {
+        Ok(m) => Some(m),
+        Err(MErr::Unsupported(_)) => return Checked::Dropped("model_unsupported"),
+        Err(MErr::Error(msg)) => {
+            if !msg.contains("more than one row") {
+                return Checked::Dropped("model_error_other");
+            }
+            if !error_unavoidable(q) {
+                return Checked::Dropped("model_error_order_dependent");
+            }
+            None
+        }
+    };
+    let got = db.query(&sql);
+    match (model, got) {
+        (_, Err(e)) if is_panic(&e) => Checked::Fail(Failure { assertion: format!("no_panic:{}", panic_tag(&e)), detail: json!({"sql": sql, "panic": e}) }),
+        (None, Err(_)) => Checked::Judged,
+        (None, Ok(rows)) => Checked::Fail(Failure { assertion: "ok_vs_err:expected_error".into(), detail: json!({"sql": sql, "model": "error: scalar subquery returned more than one row", "got": rows_json(&rows, 8)}) }),
+        (Some(_), Err(e)) => Checked::Fail(Failure { assertion: format!("ok_vs_err:unexpected_error:{}", err_class(&e)), detail: json!({"sql": sql, "error": e}) }),
+        (Some(m), Ok(rows)) => {
+            let fails = compare(&rows, &m);
+            if fails.is_empty() {
+                return Checked::Judged;
+            }
+            let windowed = m.pre_window.is_some();
+            let class = |a: &str| -> (u8, &'static str) {
+                match a {
+                    "width" => (0, "width"),
+                    "bag" => (1, "bag"),
+                    "cardinality" if !windowed => (1, "bag"),
+                    "cardinality" | "window_rows_from_input" | "window_keys" => (2, "window"),
+                    _ => (3, "sorted"),
+                }
+            };
+            let best = fails.iter().min_by_key(|f| class(f.assertion).0).unwrap();
+            Checked::Fail(Failure { assertion: class(best.assertion).1.to_string(), detail: json!({"sql": sql, "fail": best.detail, "got": rows_json(&rows, 10), "want": rows_json(&m.rows, 10)}) })
+        }
+    }
+}
+
+fn same_fail(c: Checked, a0: &str) -> bool {
+    matches!(c, Checked::Fail(f) if f.assertion == a0)
+}
+
+// ---------------------------------------------------------------------------------------------
+// shrinking
+// ---------------------------------------------------------------------------------------------
+
+fn e_rewrites(e: &E) -> Vec<E> {
+    let bx = |x: &E| Box::new(x.clone());
+    let mut out = vec![];
+    match e {
+        E::Bin(op @ (BinOp::And | BinOp::Or), a, b) => {
+            out.push((**a).clone());
+            out.push((**b).clone());
+            out.extend(e_rewrites(a).into_iter().map(|x| E::Bin(*op, Box::new(x), bx(b))));
+            out.extend(e_rewrites(b).into_iter().map(|x| E::Bin(*op, bx(a), Box::new(x))));
+        }
+        E::Not(x) => {
+            out.push((**x).clone());
+            out.extend(e_rewrites(x).into_iter().map(|y| E::Not(Box::new(y))));
+        }
+        E::Bin(op, a, b) => {
+            if op.is_arith() {
+                out.push((**a).clone());
+            }
+            out.extend(e_rewrites(a).into_iter().map(|x| E::Bin(*op, Box::new(x), bx(b))));
+            out.extend(e_rewrites(b).into_iter().map(|x| E::Bin(*op, bx(a), Box::new(x))));
+        }
+        E::Func(n, args) => {
+            if n.eq_ignore_ascii_case("COALESCE") && !args.is_empty() {
+                out.push(args[0].clone());
+            }
+            for i in 0..args.len() {
+                for x in e_rewrites(&args[i]) {
+                    let mut a2 = args.clone();
+                    a2[i] = x;
+                    out.push(E::Func(n.clone(), a2));
+                }
+            }
+        }
+        E::IsNull(x, n) => out.extend(e_rewrites(x).into_iter().map(|y| E::IsNull(Box::new(y), *n))),
+        E::InSub(l, q, n) => out.extend(q_rewrites(q, true).into_iter().map(|c| E::InSub(bx(l), Box::new(c), *n))),
+        E::Exists(q, n) => out.extend(q_rewrites(q, true).into_iter().map(|c| E::Exists(Box::new(c), *n))),
+        E::Scalar(q) => out.extend(q_rewrites(q, true).into_iter().map(|c| E::Scalar(Box::new(c)))),
+        _ => {}
+    }
+    // canonicalising rewrites (not smaller, but towards one canonical variant, so that a feature stays in the minimal
+    // statement only if the failure needs it)
+    match e {
+        E::Agg(f, _) if *f != AggFn::CountStar => out.push(E::Agg(AggFn::CountStar, None)),
+        E::Exists(q, n) => {
+            if *n {
+                out.push(E::Exists(q.clone(), false));
+            }
+            if let Query::Select(s) = &**q {
+                let canonical = s.items.len() == 1 && matches!(&s.items[0], Item::Expr { e: E::Lit(V::Int(1)), alias: None });
+                if !canonical && s.group_by.is_empty() && !s.distinct {
+                    let mut s2 = s.clone();
+                    s2.items = vec![ex(E::Lit(V::Int(1)))];
+                    out.push(E::Exists(Box::new(Query::Select(s2)), *n));
+                }
+            }
+        }
+        E::Bin(BinOp::Eq, a, b) => {
+            if let (E::Col { name, .. }, E::Lit(V::Int(_))) = (&**a, &**b) {
+                if name == "id" {
+                    out.push(E::Bin(BinOp::Le, a.clone(), b.clone()));
+                    out.push(E::Bin(BinOp::Ge, a.clone(), b.clone()));
+                }
+            }
+        }
+        _ => {}
+    }
+    out
+}
+
+fn sel_rewrites(s: &Select, keep_items: bool) -> Vec<Select> {
+    let mut out = vec![];
+    let mut push = |f: &dyn Fn(&mut Select)| {
+        let mut c = s.clone();
+        f(&mut c);
+        out.push(c);
+    };
+    if s.where_.is_some() {
+        push(&|c| c.where_ = None);
+    }
+    if s.limit.is_some() || s.offset.is_some() {
+        push(&|c| {
+            c.limit = None;
+            c.offset = None;
+        });
+    }
+    if !s.order_by.is_empty() {
+        push(&|c| {
+            c.order_by.clear();
+            c.limit = None;
+            c.offset = None;
+        });
+    }
+    if s.having.is_some() {
+        push(&|c| c.having = None);
+    }
+    if s.distinct {
+        push(&|c| c.distinct = false);
+    }
+    for ji in 0..s.joins.len() {
+        push(&|c| {
+            c.joins.remove(ji);
+        });
+    }
+    if let Some(w) = &s.where_ {
+        for x in e_rewrites(w) {
+            push(&|c| c.where_ = Some(x.clone()));
+        }
+    }
+    if !keep_items && s.order_by.is_empty() && s.items.len() > 1 {
+        for i in 0..s.items.len() {
+            push(&|c| {
+                c.items.remove(i);
+            });
+        }
+    }
+    for (i, it) in s.items.iter().enumerate() {
+        if let Item::Expr { e, alias } = it {
+            for x in e_rewrites(e) {
+                push(&|c| c.items[i] = Item::Expr { e: x.clone(), alias: alias.clone() });
+            }
+        }
+    }
+    if !keep_items && s.items.len() == 1 && matches!(s.items[0], Item::Star) {
+        if let Some(FromItem::Table { alias, .. }) = s.from.first() {
+            let tbl = alias.clone();
+            push(&|c| c.items = vec![ex(E::Col { tbl: tbl.clone(), name: "id".into() })]);
+        }
+    }
+    for (i, j) in s.joins.iter().enumerate() {
+        if j.kind == JoinKind::Left {
+            push(&|c| c.joins[i].kind = JoinKind::Inner);
+        }
+    }
+    for (i, f) in s.from.iter().enumerate() {
+        if let FromItem::Sub { query, alias } = f {
+            for x in q_rewrites(query, true) {
+                push(&|c| c.from[i] = FromItem::Sub { query: Box::new(x.clone()), alias: alias.clone() });
+            }
+        }
+    }
+    for (i, j) in s.joins.iter().enumerate() {
+        if let FromItem::Sub { query, alias } = &j.item {
+            for x in q_rewrites(query, true) {
+                push(&|c| c.joins[i].item = FromItem::Sub { query: Box::new(x.clone()), alias: alias.clone() });
+            }
+        }
+    }
+    out
+}
+
+fn drop_col(q: &Query, i: usize) -> Option<Query> {
+    match q {
+        Query::Select(s) => {
+            if s.items.len() <= i || s.items.len() < 2 || s.items.iter().any(|it| matches!(it, Item::Star)) || !s.order_by.is_empty() {
+                return None;
+            }
+            let mut c = s.clone();
+            c.items.remove(i);
+            Some(Query::Select(c))
+        }
+        Query::SetOp { kind, all, left, right, order_by, limit, offset } => {
+            if !order_by.is_empty() {
+                return None;
+            }
+            Some(Query::SetOp { kind: *kind, all: *all, left: Box::new(drop_col(left, i)?), right: Box::new(drop_col(right, i)?), order_by: vec![], limit: *limit, offset: *offset })
+        }
+    }
+}
+
+fn width(q: &Query) -> usize {
+    match q {
+        Query::Select(s) => s.items.len(),
+        Query::SetOp { left, .. } => width(left),
+    }
+}
+
+/// single-step simplifications of a query; `keep_items`: the select list is referenced from outside
+fn q_rewrites(q: &Query, keep_items: bool) -> Vec<Query> {
+    match q {
+        Query::Select(s) => sel_rewrites(s, keep_items).into_iter().map(Query::Select).collect(),
+        Query::SetOp { kind, all, left, right, order_by, limit, offset } => {
+            let mut out = vec![(**left).clone(), (**right).clone()];
+            let mk = |l: Query, r: Query, ob: Vec<OrderKey>, li: Option<u64>, of: Option<u64>| Query::SetOp { kind: *kind, all: *all, left: Box::new(l), right: Box::new(r), order_by: ob, limit: li, offset: of };
+            if limit.is_some() || offset.is_some() {
+                out.push(mk((**left).clone(), (**right).clone(), order_by.clone(), None, None));
+            }
+            if !order_by.is_empty() {
+                out.push(mk((**left).clone(), (**right).clone(), vec![], None, None));
+            }
+            for c in q_rewrites(left, true) {
+                out.push(mk(c, (**right).clone(), order_by.clone(), *limit, *offset));
+            }
+            for c in q_rewrites(right, true) {
+                out.push(mk((**left).clone(), c, order_by.clone(), *limit, *offset));
+            }
+            if !(*kind == SetKind::Union && *all) {
+                out.push(Query::SetOp { kind: SetKind::Union, all: true, left: left.clone(), right: right.clone(), order_by: order_by.clone(), limit: *limit, offset: *offset });
+            }
+            if !keep_items && order_by.is_empty() {
+                for i in 0..width(q) {
+                    if let Some(c) = drop_col(q, i) {
+                        out.push(c);
+                    }
+                }
+            }
+            out
+        }
+    }
+}
+
+fn shrink_query(q: &Query, fails: &mut dyn FnMut(&Query) -> bool, budget: &mut usize) -> Query {
+    let mut cur = q.clone();
+    'outer: loop {
+        for cand in q_rewrites(&cur, false) {
+            if *budget == 0 {
+                break 'outer;
+            }
+            *budget -= 1;
+            if fails(&cand) {
+                cur = cand;
+                continue 'outer;
+            }
+        }
+        break;
+    }
+    cur
+}
+
+fn shrink_rows(case: &Case, fails: &mut dyn FnMut(&Case) -> bool, budget: &mut usize) -> Case {
+    let mut cur = case.clone();
+    for ti in 0..cur.specs.len() {
+        let mut chunk = cur.rows[ti].len();
+        while chunk >= 1 {
+            let mut start = 0;
+            while start < cur.rows[ti].len() {
+                if *budget == 0 {
+                    return cur;
+                }
+                let end = (start + chunk).min(cur.rows[ti].len());
+                let mut cand = cur.clone();
+                cand.rows[ti].drain(start..end);
+                *budget -= 1;
+                if fails(&cand) {
+                    cur = cand;
+                } else {
+                    start = end;
+                }
+            }
+            if chunk == 1 {
+                break;
+            }
+            chunk = (chunk + 1) / 2;
+        }
+    }
+    cur
+}
+
+/// replace NULL cells by fresh non-NULL values while the failure persists (so that NULL facts are necessary ones)
+fn shrink_nulls(case: &Case, fails: &mut dyn FnMut(&Case) -> bool, budget: &mut usize) -> Case {
+    let mut cur = case.clone();
+    for ti in 0..cur.specs.len() {
+        let tys = cur.specs[ti].col_types();
+        for ri in 0..cur.rows[ti].len() {
+            for ci in 0..tys.len() {
+                if !cur.rows[ti][ri][ci].is_null() || *budget == 0 {
+                    continue;
+                }
+                let mut cand = cur.clone();
+                cand.rows[ti][ri][ci] = match tys[ci] {
+                    Ty::Int => V::Int(77),
+                    Ty::Float => V::Float(7.75),
+                    Ty::Text => V::Text("zz".into()),
+                    Ty::Bool => V::Bool(true),
+                };
+                *budget -= 1;
+                if fails(&cand) {
+                    cur = cand;
+                }
+            }
+        }
+    }
+    cur
+}
+
+// ---------------------------------------------------------------------------------------------
+// failure handling: shrink, describe, report
+// ---------------------------------------------------------------------------------------------
+
+struct Minimal {
+    sig: String,
+    detail: J,
+}
+
+fn closed_inner_queries(q: &Query, specs: &[TableSpec]) -> Vec<Query> {
+    let mut v = vec![];
+    match q {
+        Query::SetOp { left, right, .. } => {
+            v.push((**left).clone());
+            v.push((**right).clone());
+        }
+        Query::Select(s) => {
+            for f in s.from.iter().chain(s.joins.iter().map(|j| &j.item)) {
+                if let FromItem::Sub { query, .. } = f {
+                    v.push((**query).clone());
+                }
+            }
+            for e in select_exprs(s) {
+                each_subquery(e, &mut |sq| {
+                    let has_star = matches!(sq, Query::Select(x) if x.items.iter().any(|i| matches!(i, Item::Star)));
+                    if !is_correlated(sq, specs) && !has_star {
+                        v.push(sq.clone());
+                    }
+                });
+            }
+        }
+    }
+    v
+}
+
+/// working database for row shrinking: the tables are created once (CREATE TABLE costs ~60 ms here) and their
+/// content is moved from candidate to candidate with DELETE/INSERT; the minimal case is confirmed on a fresh database
+struct Work {
+    db: Db,
+    cur: Vec<Vec<Row>>,
+    dml: u64,
+}
+
+impl Work {
+    fn new(scratch: &Scratch, case: &Case) -> Result<Work, String> {
+        Ok(Work { db: case.build(scratch, "work", None)?, cur: case.rows.clone(), dml: 0 })
+    }
+    /// make the tables hold exactly `case.rows`; false if a statement failed or affected an unexpected number of rows
+    fn set(&mut self, case: &Case) -> bool {
+        for ti in 0..case.specs.len() {
+            let spec = &case.specs[ti];
+            let want: BTreeMap<i64, String> = case.rows[ti].iter().map(|r| (as_int(&r[0]), row_key(r, false))).collect();
+            let have: BTreeMap<i64, String> = self.cur[ti].iter().map(|r| (as_int(&r[0]), row_key(r, false))).collect();
+            let del: Vec<i64> = have.iter().filter(|(k, v)| want.get(*k) != Some(*v)).map(|(k, _)| *k).collect();
+            let ins: Vec<Row> = case.rows[ti].iter().filter(|r| have.get(&as_int(&r[0])) != Some(&row_key(r, false))).cloned().collect();
+            if !del.is_empty() {
+                self.dml += 1;
+                let sql = format!("DELETE FROM {} WHERE id IN ({})", spec.name, del.iter().map(|i| i.to_string()).collect::<Vec<_>>().join(", "));
+                if self.db.exec(&sql).is_err() {
+                    return false;
+                }
+            }
+            for s in spec.insert_sql(&ins) {
+                self.dml += 1;
+                if self.db.exec(&s).is_err() {
+                    return false;
+                }
+            }
+            if !del.is_empty() || !ins.is_empty() {
+                // rows_affected of DELETE is not trusted (it is C05's subject); the content is read back instead
+                match self.db.query(&format!("SELECT * FROM {}", spec.name)) {
+                    Ok(rows) if crate::sqlm::cmp::bag_diff(&rows, &case.rows[ti]).is_none() => {}
+                    _ => return false,
+                }
+            }
+            self.cur[ti] = case.rows[ti].clone();
+        }
+        true
+    }
+}
+
+fn minimise(scratch: &Scratch, case: &Case, db: &mut Db, work: &mut Option<Work>, q: &Query, f: &Failure, ctx: &mut Ctx, seen: &mut BTreeSet<String>) -> Minimal {
+    let a0 = f.assertion.clone();
+    let tables = case.tables();
+    // 1. structure of the statement, on the database at hand
+    let mut bq = 160usize;
+    let specs = &case.specs;
+    // a candidate must keep at least one subquery / derived table / set operation (otherwise the shrinker would slide into unrelated defects)
+    let has_form = |c: &Query| !describe(c, specs).forms.is_empty();
+    let q1 = shrink_query(q, &mut |c| has_form(c) && same_fail(check(db, &tables, c), &a0), &mut bq);
+    // 2. table rows and NULL cells, on the working database
+    if work.is_none() {
+        *work = Work::new(scratch, case).ok();
+        ctx.count("shrink_work_db_builds", 1);
+    }
+    let mut case2 = case.clone();
+    let mut q2 = q1.clone();
+    let mut work_ok = false;
+    let mut needs_q = false;
+    if let Some(w) = work.as_mut() {
+        let dml0 = w.dml;
+        if w.set(case) && same_fail(check(&mut w.db, &tables, &q1), &a0) {
+            work_ok = true;
+            let mut br = 110usize;
+            let case1 = shrink_rows(case, &mut |c| w.set(c) && same_fail(check(&mut w.db, &c.tables(), &q1), &a0), &mut br);
+            let mut bn = 40usize;
+            case2 = shrink_nulls(&case1, &mut |c| w.set(c) && same_fail(check(&mut w.db, &c.tables(), &q1), &a0), &mut bn);
+            // 3. structure again, on the small tables
+            let tables2 = case2.tables();
+            if w.set(&case2) && same_fail(check(&mut w.db, &tables2, &q1), &a0) {
+                let mut bq2 = 120usize;
+                q2 = shrink_query(&q1, &mut |c| has_form(c) && same_fail(check(&mut w.db, &tables2, c), &a0), &mut bq2);
+                if let Some(q3) = strip_qualifiers(&q2) {
+                    if same_fail(check(&mut w.db, &tables2, &q3), &a0) {
+                        q2 = q3;
+                    } else {
+                        needs_q = true;
+                    }
+                }
+            } else {
+                case2 = case.clone();
+                let _ = w.set(case);
+            }
+        }
+        ctx.count("shrink_work_db_dml", w.dml - dml0);
+    }
+    if !work_ok {
+        ctx.count("shrink_without_row_reduction", 1);
+        if a0.starts_with("no_panic") {
+            *work = None;
+        }
+    }
+    let case_f = case2;
+    let tables_f = case_f.tables();
+    // 4. attribution: does a closed inner query already fail on its own?
+    let mut fct = facts(&q2, &tables_f);
+    let mut inner_fail: Vec<String> = vec![];
+    let mut inner_first: Option<(Query, String)> = None;
+    if work_ok {
+        if let Some(w) = work.as_mut() {
+            for iq in closed_inner_queries(&q2, &case_f.specs) {
+                if let Checked::Fail(x) = check(&mut w.db, &tables_f, &iq) {
+                    inner_fail.push(format!("{} => {}", iq.sql(), x.assertion));
+                    if inner_first.is_none() {
+                        // minimise the inner query on its own (its own sub-assertion)
+                        let ia = x.assertion.clone();
+                        let mut bi = 60usize;
+                        let small = shrink_query(&iq, &mut |c| same_fail(check(&mut w.db, &tables_f, c), &ia), &mut bi);
+                        inner_first = Some((small, ia));
+                    }
+                }
+            }
+        }
+    }
+    if !inner_fail.is_empty() {
+        fct.insert("inner_query_fails_alone".into());
+    }
+    let mut d = describe(&q2, &case_f.specs);
+    if needs_q {
+        d.ctx.insert("needs_qualifiers".into());
+    }
+    let join = |s: &BTreeSet<String>| s.iter().cloned().collect::<Vec<_>>().join("+");
+    let mut sig = format!("C18/{}/{}", a0, if d.forms.is_empty() { "plain".to_string() } else { join(&d.forms) });
+    if !fct.is_empty() {
+        sig.push('/');
+        sig.push_str(&join(&fct));
+    }
+    if !d.ctx.is_empty() {
+        sig.push_str(&format!("[{}]", join(&d.ctx)));
+    }
+    if let Some((iq, ia)) = inner_first.as_ref() {
+        // the defect is inside a closed inner query (it fails when run on its own): attribute by that query alone
+        let di = describe(iq, &case_f.specs);
+        let mut all = di.forms.clone();
+        all.extend(di.ctx.iter().cloned());
+        sig = format!("C18/{}/inner_query_fails_alone:{}[{}]", a0, ia, join(&all));
+    }
+    // 5. repro: for the first case of a signature, confirm on a fresh database holding only the tables the
+    //    minimal statement uses (falling back to all tables)
+    let used: BTreeSet<String> = tables_used(&q2).into_iter().collect();
+    let mut setup = case_f.setup_sql(None);
+    let mut confirmed: Option<bool> = None;
+    let mut min_detail = None;
+    let mut explain = None;
+    if seen.insert(sig.clone()) {
+        confirmed = Some(false);
+        for only in [Some(&used), None] {
+            ctx.count("shrink_fresh_db_builds", 1);
+            if let Ok(mut d2) = case_f.build(scratch, "rep", only) {
+                if let Checked::Fail(x) = check(&mut d2, &tables_f, &q2) {
+                    if x.assertion == a0 {
+                        confirmed = Some(true);
+                        setup = case_f.setup_sql(only);
+                        min_detail = Some(x.detail);
+                        explain = d2.explain(&q2.sql());
+                        break;
+                    }
+                }
+            }
+        }
+        if confirmed == Some(false) {
+            ctx.count("minimal_case_not_confirmed_on_fresh_db", 1);
+        }
+    }
+    Minimal {
+        sig,
+        detail: json!({
+            "minimal": {"setup": setup, "sql": q2.sql(), "detail": min_detail, "explain": explain, "facts": fct.iter().collect::<Vec<_>>(), "inner_queries_failing_standalone": inner_fail, "confirmed_on_fresh_db": confirmed},
+            "original": {"setup": case.setup_sql(None), "sql": q.sql(), "detail": f.detail},
+        }),
+    }
+}
+
+/// did the statement really exercise the mechanism (result depends on the subquery / both set-operation inputs non-empty)?
+fn exercised(q: &Query, tables: &BTreeMap<String, MTable>) -> bool {
+    let m = match run_model(q, tables) {
+        Ok(m) => m,
+        Err(_) => return true, // an expected error is a judged, non-trivial case
+    };
+    match q {
+        Query::SetOp { left, right, .. } => {
+            let l = run_model(left, tables).map(|r| r.rows.len()).unwrap_or(0);
+            let r = run_model(right, tables).map(|r| r.rows.len()).unwrap_or(0);
+            l > 0 && r > 0
+        }
+        Query::Select(s) => {
+            if m.rows.is_empty() && m.pre_window.is_none() {
+                return false;
+            }
+            let mut w: Vec<E> = vec![];
+            if let Some(x) = &s.where_ {
+                direct_sub_exprs(x, &mut w);
+            }
+            if w.is_empty() {
+                return true;
+            }
+            // the subquery predicate must have removed something
+            let mut s2 = s.clone();
+            s2.where_ = None;
+            s2.limit = None;
+            s2.offset = None;
+            let all = run_model(&Query::Select(s2), tables).map(|r| r.rows.len()).unwrap_or(0);
+            let kept = m.pre_window.as_ref().map(|p| p.len()).unwrap_or(m.rows.len());
+            kept < all || s.distinct
+        }
+    }
+}
+
+fn plan_ops(plan: &str, out: &mut BTreeMap<String, u64>) {
+    for line in plan.lines() {
+        if let Some(i) = line.find("-> ") {
+            let name: String = line[i + 3..].chars().take_while(|c| c.is_ascii_alphanumeric()).collect();
+            if !name.is_empty() {
+                *out.entry(name).or_insert(0) += 1;
+            }
+        }
+    }
+}
+
+const RULE: &str = "per database 2-3 generated tables (id PK + int/text[/int|float] columns, small overlapping value domains, NULL strata 0/20/40%, 3..25 rows, duplicates) and generated statements of four families: WHERE with [NOT] IN (subquery) / [NOT] EXISTS / comparison with a scalar subquery (correlated by = < > <> or not, NULL left operands, NULL-bearing and empty subquery results, combined by AND/OR/NOT with plain filters); subqueries in the select list (scalar: aggregate, primary-key lookup with zero/one row, multi-row => error expected; IN/EXISTS as truth values); derived tables in FROM (projection+filter, GROUP BY with aggregates/HAVING, aggregate-only, DISTINCT, nested, joined with a base table, over a set operation); UNION/INTERSECT/EXCEPT [ALL] over duplicate- and NULL-bearing inputs, chains of two operations (only where the flat text has one reading under standard precedence), trailing ORDER BY/LIMIT; nesting depth <= 3; four naming styles (bare, table-qualified, aliased, README-mixed). Each statement runs on TurDB and on the sqlm reference evaluator: sub-assertions bag / sorted / window / width / ok_vs_err (model error => TurDB must error, only where no evaluation order can avoid the error; model rows => TurDB must not error) / no_panic. A failing case is shrunk (drop WHERE/conjuncts/subquery filters/select items/set-operation branches, reduce nesting, delete table rows on fresh databases, replace NULL cells, strip qualifiers) while the same sub-assertion fails; signature = sub-assertion / subquery forms of the minimal statement / data facts evaluated in the model (null_in_subquery_result, null_left_operand, zero_rows, multi_rows, null_rows, dup_rows, null_group_key, inner_query_fails_alone) [context features]. distinct_nontrivial = distinct (statement text, table data) pairs judged whose model result depends on the mechanism (subquery predicate removed rows / non-empty result / both set-operation inputs non-empty / expected error)";
+
+pub fn run(a: &Args) -> i32 {
+    let mut ctx = Ctx::new("C18", &a.tier, a.seed, "exploration", RULE);
+    let mut rng = Rng::derive(a.seed, 18);
+    let quick = ctx.quick();
+    let (ndb, per_db, wall_cap) = if cfg!(miri) {
+        (1, 4, 60.0)
+    } else if quick {
+        (60, 30, 45.0)
+    } else {
+        (1200, 40, 510.0)
+    };
+    let scratch = Scratch::new("c18");
+    let mut by_form: BTreeMap<String, u64> = BTreeMap::new();
+    let mut by_family: BTreeMap<String, u64> = BTreeMap::new();
+    let mut ops: BTreeMap<String, u64> = BTreeMap::new();
+    let mut sig_counts: BTreeMap<String, u64> = BTreeMap::new();
+    let mut depth_counts: BTreeMap<String, u64> = BTreeMap::new();
+    let names = ["ta", "tb", "tc"];
+    let mut seen: BTreeSet<String> = BTreeSet::new();
+    'dbs: for dbi in 0..ndb {
+        if ctx.elapsed() > wall_cap {
+            ctx.count("stopped_at_wall_cap_after_databases", dbi as u64);
+            break;
+        }
+        let nt = rng.usize(2, 3);
+        let specs: Vec<TableSpec> = names[..nt].iter().map(|n| make_spec(&mut rng, n)).collect();
+        let rows: Vec<Vec<Row>> = specs
+            .iter()
+            .map(|s| {
+                let n = if rng.chance(1, 3) { rng.usize(3, 6) } else { rng.usize(5, 25) };
+                gen_rows(&mut rng, s, n)
+            })
+            .collect();
+        let case = Case { specs, rows };
+        let nrows: Vec<usize> = case.rows.iter().map(|r| r.len()).collect();
+        let tables = case.tables();
+        let dhash = case.data_hash();
+        let mut work: Option<Work> = None;
+        let mut db = match case.build(&scratch, "main", None) {
+            Ok(d) => d,
+            Err(e) => {
+                ctx.violation("setup", "C18/setup_failed", json!({"error": e, "setup": case.setup_sql(None)}));
+                continue;
+            }
+        };
+        for _ in 0..per_db {
+            if ctx.elapsed() > wall_cap + 8.0 {
+                break 'dbs;
+            }
+            let mut gq = None;
+            for _ in 0..6 {
+                gq = gen_query(&mut rng, &case.specs, &nrows);
+                if gq.is_some() {
+                    break;
+                }
+                ctx.count("generator_retries", 1);
+            }
+            let (q, family) = match gq {
+                Some(x) => x,
+                None => continue,
+            };
+            ctx.eval();
+            match check(&mut db, &tables, &q) {
+                Checked::Judged => {
+                    let d = describe(&q, &case.specs);
+                    for f in &d.forms {
+                        *by_form.entry(f.clone()).or_insert(0) += 1;
+                    }
+                    *by_family.entry(family.to_string()).or_insert(0) += 1;
+                    *depth_counts.entry(format!("depth{}", d.max_depth)).or_insert(0) += 1;
+                    ctx.count("judged", 1);
+                    if exercised(&q, &tables) {
+                        ctx.nontrivial(fnv(q.sql().as_bytes()) ^ dhash.rotate_left(17));
+                    }
+                    if let Some(p) = db.explain(&q.sql()) {
+                        plan_ops(&p, &mut ops);
+                    }
+                    if ctx.samples.len() < 6 && (d.max_depth >= 2 || family == "setop") && ctx.evaluations % 7 == 0 {
+                        ctx.sample(json!({"family": family, "sql": q.sql()}));
+                    }
+                }
+                Checked::Dropped(why) => ctx.count(&format!("dropped:{}", why), 1),
+                Checked::Fail(f) => {
+                    *by_family.entry(format!("{}(failed)", family)).or_insert(0) += 1;
+                    if let Some(p) = db.explain(&q.sql()) {
+                        plan_ops(&p, &mut ops);
+                    }
+                    let m = minimise(&scratch, &case, &mut db, &mut work, &q, &f, &mut ctx, &mut seen);
+                    if *sig_counts.entry(m.sig.clone()).or_insert(0) == 0 {
+                        if let Ok(path) = std::env::var("C18_DUMP") {
+                            use std::io::Write;
+                            if let Ok(mut fh) = std::fs::OpenOptions::new().create(true).append(true).open(&path) {
+                                let _ = writeln!(fh, "{}", json!({"sig": m.sig, "minimal": m.detail["minimal"], "original_sql": m.detail["original"]["sql"]}));
+                            }
+                        }
+                    }
+                    *sig_counts.entry(m.sig.clone()).or_insert(0) += 1;
+                    let kind = f.assertion.split(':').next().unwrap_or("bag").to_string();
+                    ctx.violation(&kind, &m.sig, m.detail);
+                    if kind == "no_panic" {
+                        // a statement panicked inside TurDB: continue on a fresh handle
+                        match case.build(&scratch, "main", None) {
+                            Ok(d) => db = d,
+                            Err(_) => continue 'dbs,
+                        }
+                    }
+                }
+            }
+        }
+    }
+    ctx.extra.insert("judged_by_form".into(), json!(by_form));
+    ctx.extra.insert("statements_by_family".into(), json!(by_family));
+    ctx.extra.insert("judged_by_nesting_depth".into(), json!(depth_counts));
+    ctx.extra.insert("plan_operators_seen".into(), json!(ops));
+    ctx.extra.insert("failure_signatures".into(), json!(sig_counts));
+    ctx.assumptions.push("set-operation chains are generated only where SQL-standard precedence (INTERSECT first, otherwise left to right) and plain left-to-right reading agree; ORDER BY on a set operation uses ordinals or the first branch's column names; no LIMIT without a total ORDER BY; numeric types are not mixed across set-operation branches; a 'more than one row' error is demanded only for scalar subqueries placed directly in the select list or as the sole WHERE comparison".into());
+    ctx.finish()
 }
